@@ -316,6 +316,58 @@ theorem mergeBatch_st (fix : Bool) (now : Int) (ov : Bool) (s : Store) (b : List
     (mergeBatch fix now ov s b).1.st = (decodeBatch b).foldl (fun st kv => stMerge now st kv.2) s.st := by
   unfold mergeBatch; exact mergeBatch_aux fix now ov _ (s, 0)
 
+/-! ### what `Silences.Merge` hands back to the gossip layer -/
+
+/-- `state.merge` accepts a version exactly when the slot of its id changes to that version. -/
+theorem accepted_iff_changed (now : Int) (st : AList String Mesh) (e : Mesh) :
+    mergeKind now st e ≠ .refused ↔
+      (lookup (stMerge now st e) e.sil.id = some e ∧ lookup st e.sil.id ≠ some e) := by
+  rw [lookup_stMerge]
+  simp only [if_true, upd]
+  unfold mergeKind
+  by_cases hx : e.exp < now
+  · simp [hx]
+  · cases hs : lookup st e.sil.id with
+    | none => simp [hx]
+    | some p =>
+      by_cases hp : p.sil.updated < e.sil.updated
+      · simp [hx, hp]
+        intro h; subst h; omega
+      · simp [hx, hp]
+
+/-- records of a decoded message that `state.merge` accepts when they are merged one after the other -/
+def acceptedCount (now : Int) (st : AList String Mesh) : List (String × Mesh) → Nat
+  | [] => 0
+  | kv :: l => (if mergeKind now st kv.2 ≠ .refused then 1 else 0) + acceptedCount now (stMerge now st kv.2) l
+
+theorem mergeBatch_count_aux (fix : Bool) (now : Int) (ov : Bool) (l : List (String × Mesh)) (acc : Store × Nat) :
+    (l.foldl (fun (acc : Store × Nat) kv =>
+        let r := mergeOne fix now acc.1 kv.2
+        (r.1, if r.2 ≠ .refused ∧ !ov then acc.2 + 1 else acc.2)) acc).2
+      = acc.2 + (if ov then 0 else acceptedCount now acc.1.st l) := by
+  induction l generalizing acc with
+  | nil => simp [acceptedCount]
+  | cons kv l ih =>
+    simp only [List.foldl_cons]
+    rw [ih]
+    simp only [(mergeOne_st fix now acc.1 kv.2).1, (mergeOne_st fix now acc.1 kv.2).2, acceptedCount]
+    cases ov <;> by_cases hk : mergeKind now acc.1.st kv.2 = .refused <;> simp [hk] <;> omega
+
+/-- **Every accepted update is relayed, nothing else is**: the number of re-broadcasts of one received
+    message is the number of its records that changed the state (`accepted_iff_changed`) — new ids and
+    newer versions of known ids alike — unless the message is oversized (those went to every peer already). -/
+theorem merge_relays_accepted (fix : Bool) (now : Int) (ov : Bool) (s : Store) (b : List Mesh) :
+    (mergeBatch fix now ov s b).2 = if ov then 0 else acceptedCount now s.st (decodeBatch b) := by
+  unfold mergeBatch
+  rw [mergeBatch_count_aux]; simp
+
+/-- a small update of a silence the instance already holds is relayed once -/
+theorem merge_update_relayed (fix : Bool) (now : Int) (s : Store) (e p : Mesh)
+    (h : lookup s.st e.sil.id = some p) (hu : p.sil.updated < e.sil.updated) (hx : ¬ e.exp < now) :
+    (mergeBatch fix now false s [e]).2 = 1 := by
+  rw [merge_relays_accepted]
+  simp [decodeBatch, put, acceptedCount, mergeKind, hx, h, hu]
+
 theorem setSilence_st (now : Int) (s : Store) (m : Mesh) :
     (setSilence now s m).1.st = stMerge now s.st m ∧ (setSilence now s m).2 = mergeKind now s.st m := by
   unfold setSilence stMerge
